@@ -50,6 +50,9 @@ Definition sec_s2k_simple (pub : fmt) (usage : Z) : fmt :=
   FSeq pub (fseq [FConst [usage]; FBE 1; FConst [0]; FBE 1] FRest).
 Definition sec_gnu_dummy (pub : fmt) : fmt :=
   FSeq pub (fseq [FBE 1; FBE 1; FConst [101]; FBE 1; FConst [71; 78; 85]] FRest).
+(* GNU smartcard stub (extension 2): the serial number follows behind a one-octet length, also when it is empty (repair 05bf06b) *)
+Definition sec_gnu_card (pub : fmt) : fmt :=
+  FSeq pub (fseq [FBE 1; FBE 1; FConst [101]; FBE 1; FConst [71; 78; 85]; FConst [2]] (FLen 1 FRest)).
 Definition f_seckey (tag : Z) (m : fmt) := pkt tag (versioned 4 m).
 
 (* tag 8: algorithm + compressed octets; tag 9 / 18: ciphertext; tag 10: "PGP"; tag 19: SHA-1 *)
@@ -92,7 +95,13 @@ Definition named_formats : list (string * fmt) :=
    ("sec_rsa_255", f_seckey 5 (sec_s2k_iter pub_rsa 255)); ("sec_eddsa_255", f_seckey 5 (sec_s2k_iter pub_eddsa 255));
    ("ssb_rsa_255", f_seckey 7 (sec_s2k_iter pub_rsa 255)); ("ssb_ecdh_255", f_seckey 7 (sec_s2k_iter pub_ecdh 255));
    ("sec_rsa_254_salted", f_seckey 5 (sec_s2k_salted pub_rsa 254)); ("sec_rsa_254_simple", f_seckey 5 (sec_s2k_simple pub_rsa 254));
-   ("sec_rsa_gnu", f_seckey 5 (sec_gnu_dummy pub_rsa)); ("ssb_rsa_gnu", f_seckey 7 (sec_gnu_dummy pub_rsa))]%string.
+   ("sec_rsa_gnu", f_seckey 5 (sec_gnu_dummy pub_rsa)); ("ssb_rsa_gnu", f_seckey 7 (sec_gnu_dummy pub_rsa));
+   (* forms that round-trip since the repairs 7c47922 (DSA / ElGamal usage 255), 05bf06b (smartcard stub), 471db4e (trust packet of any length) *)
+   ("sec_dsa_255", f_seckey 5 (sec_s2k_iter pub_dsa 255)); ("ssb_dsa_255", f_seckey 7 (sec_s2k_iter pub_dsa 255));
+   ("ssb_elg_255", f_seckey 7 (sec_s2k_iter pub_elg 255)); ("sec_dsa_255_salted", f_seckey 5 (sec_s2k_salted pub_dsa 255));
+   ("sec_rsa_card", f_seckey 5 (sec_gnu_card pub_rsa)); ("ssb_rsa_card", f_seckey 7 (sec_gnu_card pub_rsa));
+   ("sec_eddsa_card", f_seckey 5 (sec_gnu_card pub_eddsa)); ("ssb_ecdh_card", f_seckey 7 (sec_gnu_card pub_ecdh));
+   ("trust", f_opaque 12)]%string.
 
 Definition all_formats : list fmt := map snd named_formats.
 
